@@ -38,7 +38,7 @@ impl Entry {
 /// Checks an observed before/after pair.  `after` lacks evicted entries.
 /// `now_lo` is the simulated time when maintenance started (new ranks of
 /// reprieved entries must not be older than that, truncated to `gran`).
-pub fn check_maintenance(before: &[Entry], after: &[Entry], cap: usize, now_lo: Ts, gran: i64) -> Result<Summary, String> {
+pub fn check_maintenance(before: &[Entry], after: &[Entry], restamped: &[String], cap: usize, now_lo: Ts, gran: i64) -> Result<Summary, String> {
     let n = before.len();
     let after_map: BTreeMap<&str, &Entry> = after.iter().map(|e| (e.name.as_str(), e)).collect();
     for a in after {
@@ -56,12 +56,14 @@ pub fn check_maintenance(before: &[Entry], after: &[Entry], cap: usize, now_lo: 
                 if a.ino != b.ino {
                     return Err(format!("entry {} was replaced during maintenance", b.name));
                 }
-                if a.mtime == b.mtime && a.atime == b.atime {
-                    same.push(b);
-                } else if a.mtime == b.mtime {
-                    return Err(format!("entry {}: atime changed ({} -> {}) without a reprieve", b.name, b.atime, a.atime));
-                } else {
+                // with coarse timestamps a reprieve may store the very rank
+                // the entry already had: go by the calls, not by the values
+                if restamped.contains(&b.name) {
                     moved.push((b, a));
+                } else if a.mtime == b.mtime && a.atime == b.atime {
+                    same.push(b);
+                } else {
+                    return Err(format!("entry {}: times changed ({}/{} -> {}/{}) without a reprieve", b.name, b.mtime, b.atime, a.mtime, a.atime));
                 }
             }
         }
